@@ -29,7 +29,10 @@ def enumerate_proposals(mods, exprs, muts, limit_s=5.0, max_per_node=200):
     """Yield dicts: mut, idx (BFS index, 1-based), node, simp | error, dt.
     Every mutator call runs under a watchdog of `limit_s` seconds."""
     nodes = mods['nodes']
-    mods['smtlib'].collect_information(exprs)
+    try:
+        mods['smtlib'].collect_information(exprs)
+    except Exception:  # noqa: intolerance of odd shapes is C04's business
+        return
     signal.signal(signal.SIGALRM, _alarm)
     for idx, node in enumerate(nodes.bfs(exprs), 1):
         for m in muts:
